@@ -58,8 +58,18 @@ R6    (3) terms `key + xor(acc, key)` / `xor(acc[k:], acc[:k])` compared structu
       (6) key length from constants.  Lemma key-length: `n.to_bytes(k, ..)`, `os.urandom(k)`, `utils.pack(.., size=k)` are k
       bytes long, `struct.pack(fmt, ..)` is `struct.calcsize(fmt)` bytes long (fmt a constant of the analysed code).
 R7    (5) one case per build selector of the reference vocabulary (output, id, metadata) with the payload symbolic; (3)
-      which C2Data attribute the accumulator term reads / which local receives the accumulator, and the keyword terms of
-      the returned constructor; (2) isinstance facts on the returning path.  Constructor: (3) path-wise terms of
+      which C2Data attribute the accumulator term reads / which *slot* receives the accumulator, and the argument terms of
+      the returned constructor; (2) isinstance facts on the returning path.  A slot is located by role and is either a
+      loop-carried local (`x = acc`) or a constant-key entry of a loop-carried container (`%setitem(c, "k", acc)`, also
+      spelled `c.update({"k": acc})`; the latest store to a key wins; the key is constant because the selector is the case
+      literal).  The constructor argument of field f is (1) the keyword f, the positional argument at f's annotated
+      position, or for `C(**m)` the entry `m[f]` (lemma splat: a call with `**m` passes every entry of m as the keyword
+      named by its key; a dict display is looked up directly (6); `dict(m)`, `m.copy()`, `{**m}` have the entries of m);
+      it must read the slot the selector stored into (`x`, `c["k"]`, `c.get("k")`).  Two selectors sharing a slot, a field
+      given another slot or a term that does not involve the container, a selector whose payload reaches no state at all
+      -> VIOLATED; a payload that goes into a store the rule cannot name (computed key, setattr / attribute of an object,
+      some other mutator or call) or an argument computed from the container in another way -> undecided.
+      Constructor: (3) path-wise terms of
       self.tsteps / self.rsteps with object identities for fresh lists, orientation by structural rules (`x[::-1]`,
       `reversed(x)` flip; `list(x)`, `x[:]`, `x.copy()` keep), recorded list mutations insert(0, .)/append(.).
       Build starts a new block: (5) per selector, (3) on every normally completing path the final accumulator term must not
@@ -1364,6 +1374,8 @@ def run(ctx):
                        "whether a recover that takes only a part of a termination location (a slice of http.uri ...) removes exactly what transform kept there "
                        "(recover is not given the initial request): R9 is undecided on such shapes",
                        "programs with two placements into the same location (two uri_append / print steps): only one placement step is analysed at a time",
+                       "recover keeping the recovered blocks in something other than locals or constant-key entries of a local container (attributes set by name, "
+                       "computed keys): R7 `build selectors` is undecided there",
                        "dispatchers with nested loops / try / with / match, or dispatching through a table that is not a constant dict display bound once "
                        "(computed tables, tables of method names, getattr dispatch): the affected steps are reported undecided",
                        "aliasing between the returned request and the caller's initial request (transform writes into the caller's params/headers dicts by design)"]
@@ -1375,6 +1387,8 @@ def run(ctx):
         "name in its module is taken to have the displayed content when the dispatcher runs (mutation through an alias or from another module is not tracked)",
         "function references (def / class / functools.partial of the package, attributes of imported modules) are not None and truthy",
         "NamedTuple: `_fields` and the positional constructor order are the annotated field names of the class body in source order; every instance has every field",
+        "lemma splat (R7): `C(**m)` passes each entry of the mapping m as the keyword argument named by its key, so field f receives m[f] when m has the key f "
+        "(otherwise the class default); dict(m) / m.copy() / {**m} have the entries of m; a dict entry holds the value of the latest store to its key",
         "lifetime: module-level and class-level bindings, instance attributes and parameter defaults outlive a call; a dict display / dict(..) / .copy() evaluated in the call is a new object",
         "lemma base64-pad: at most two '=' are stripped and CPython's base64 decoders ignore surplus padding, so appending >= 2 '=' repairs the input",
         "lemma split: partition(s)[0]/[2] and split(s, 1)[0]/[1] split at the first s, rpartition/rsplit at the last",
@@ -2163,6 +2177,133 @@ def _is_request(p: _Path, http: str) -> Optional[bool]:
     return None
 
 
+def _payload_slots(ch: Dict[str, ast.AST], acc: str):
+    """Where an iteration leaves the payload accumulator, by role: ("name", local) for a loop-carried local that becomes
+    the accumulator, ("item", container, key) for a constant-key entry of a loop-carried container that does
+    (`%setitem(container, key, acc)`, the latest store to a key wins).  Second result: stores of the accumulator the rule
+    cannot name (a computed key, a later store under a computed key that may replace the entry, another mutator)."""
+    slots, unclear = set(), []
+    for n, v in ch.items():
+        if n == acc:
+            continue
+        if _is(v, acc):
+            slots.add(("name", n))
+            continue
+        layers, b = [], v
+        while isinstance(b, ast.Call) and isinstance(b.func, ast.Name) and b.func.id == "%setitem" and len(b.args) == 3:
+            layers.append((b.args[1], b.args[2]))
+            b = b.args[0]
+        if not layers or src(b) != n:
+            if isinstance(v, ast.Call) and isinstance(v.func, ast.Name) and v.func.id.startswith("%") and _mentions(v, acc):
+                unclear.append(f"the payload goes into {n} through {src(v)}")
+            continue
+        seen, shadowed = set(), False
+        for k, x in layers:  # latest store first
+            kv = _cv(k)
+            try:
+                hash(kv)
+            except TypeError:
+                kv = _NC
+            if kv is _NC:
+                if _mentions(x, acc):
+                    unclear.append(f"the payload is stored in {n} under the computed key {src(k)}")
+                shadowed = True
+                continue
+            if (type(kv).__name__, kv) in seen:
+                continue
+            seen.add((type(kv).__name__, kv))
+            if _is(x, acc):
+                if shadowed:
+                    unclear.append(f"the entry {n}[{kv!r}] may be replaced by a later store under a computed key")
+                else:
+                    slots.add(("item", n, kv))
+    return slots, unclear
+
+
+def _payload_sinks(p: _Path, acc: str, skip_effects: int = 0, skip_muts: int = 0) -> List[str]:
+    """Calls and in-place updates of the iteration that receive the accumulator but do not show up as a store into a
+    loop-carried local or container (setattr(obj, name, acc), sink.append(acc), f(acc) ...)."""
+    out = []
+    for e in p.effects[skip_effects:]:
+        if _mentions(e, acc):
+            out.append(f"the payload is passed to {src(e)}")
+    for recv, meth, args in p.muts[skip_muts:]:
+        if meth == "__setitem__" and dotted(recv) is not None:
+            continue  # visible as a %setitem term of the receiver
+        if meth == "update" and len(args) == 1 and isinstance(args[0], ast.Dict) and len(args[0].keys) == 1 and args[0].keys[0] is not None \
+                and dotted(recv) is not None:
+            continue  # the same store spelled as update({k: v})
+        if any(_mentions(a, acc) for a in args):
+            out.append(f"the payload is passed to {src(recv)}.{meth}(..)")
+    return out
+
+
+def _slot_text(slot) -> str:
+    return slot[1] if slot[0] == "name" else f"{slot[1]}[{slot[2]!r}]"
+
+
+def _slot_read(e: Optional[ast.AST]):
+    """The slot an argument term reads: a plain local, `container[key]` / `container.get(key)` / `container.get(key, None)`
+    with a constant key; None for any other term."""
+    e = strip_cast(e) if e is not None else None
+    if isinstance(e, ast.Call) and dotted(e.func) == "bytes" and len(e.args) == 1 and not e.keywords:
+        e = strip_cast(e.args[0])
+    if isinstance(e, ast.Name):
+        return ("name", e.id)
+    recv = key = None
+    if isinstance(e, ast.Subscript) and not isinstance(e.slice, ast.Slice):
+        recv, key = e.value, e.slice
+    elif isinstance(e, ast.Call) and isinstance(e.func, ast.Attribute) and e.func.attr == "get" and not e.keywords and (
+            len(e.args) == 1 or (len(e.args) == 2 and isinstance(e.args[1], ast.Constant) and e.args[1].value is None)):
+        recv, key = e.func.value, e.args[0]
+    if recv is None or dotted(recv) is None:
+        return None
+    kv = _cv(key)
+    try:
+        hash(kv)
+    except TypeError:
+        return None
+    return None if kv is _NC else ("item", dotted(recv), kv)
+
+
+def _mapping_source(e: ast.AST, depth: int = 0) -> ast.AST:
+    """A shallow copy of a mapping has the entries of the mapping: dict(m), m.copy(), {**m} read as m."""
+    if depth > 4:
+        return e
+    if isinstance(e, ast.Call) and not e.keywords:
+        if dotted(e.func) in ("dict", "OrderedDict", "collections.OrderedDict") and len(e.args) == 1:
+            return _mapping_source(e.args[0], depth + 1)
+        if isinstance(e.func, ast.Attribute) and e.func.attr == "copy" and not e.args:
+            return _mapping_source(e.func.value, depth + 1)
+    if isinstance(e, ast.Dict) and len(e.keys) == 1 and e.keys[0] is None:
+        return _mapping_source(e.values[0], depth + 1)
+    return e
+
+
+def _ctor_arg(ex: _Sym, p: _Path, c: ast.Call, field: str, names: Optional[List[str]]) -> Optional[ast.AST]:
+    """The term a constructor call passes for `field`: the keyword of that name, the positional argument at the field's
+    position (annotated field order of the NamedTuple class), or - for `C(**m)` - the entry `m[field]` (a call with a
+    mapping passes every entry as the keyword named by its key; a dict display is looked up directly).  None when the
+    call does not pass the field (the class default applies)."""
+    for k in c.keywords:
+        if k.arg == field:
+            return k.value
+    if names is not None and field in names and names.index(field) < len(c.args):
+        a = c.args[names.index(field)]
+        return None if isinstance(a, ast.Starred) else a
+    for k in c.keywords:
+        if k.arg is not None:
+            continue
+        m = _mapping_source(k.value)
+        if isinstance(m, ast.Dict) and all(x is not None and _cv(x) is not _NC for x in m.keys):
+            hit = [v for x, v in zip(m.keys, m.values) if _cv(x) == field]
+            if hit:
+                return hit[-1]
+            continue
+        return ast.Subscript(value=m, slice=ast.Constant(value=field), ctx=ast.Load())
+    return None
+
+
 def r7(ctx, T, R, tt, rt, tval, rval):
     c2p = _ST.get("c2") or params(T.node)[1]
     http = _ST.get("http") or params(R.node)[1]
@@ -2208,22 +2349,28 @@ def r7(ctx, T, R, tt, rt, tval, rval):
             ps = _normal(rt.paths("build", ast.Constant(value=s)))
             if _opaque(ps):
                 unknown.append(f"not modelled: {_opaque(ps)}")
-            got = set()
+            got, flows = set(), []
             for p in ps:
                 if p.opaque:
                     continue  # not fully modelled: reported as undecided above, nothing is concluded from it
                 ch = rt.changed(p)
-                got |= {n for n, v in ch.items() if n != rt.acc and _is(v, rt.acc)}
+                slots, unclear = _payload_slots(ch, rt.acc)
+                got |= slots
+                flows.extend(f"build {s}: {u}" for u in unclear + _payload_sinks(p, rt.acc, len(rt.pre.effects), len(rt.pre.muts)))
                 if rt.acc in ch:
                     problems.append(f"build {s} rewrites the payload: {src(ch[rt.acc])}")
-            if len(got) == 1:
+            if len(got) == 1 and not flows:
                 store[s] = got.pop()
-            elif not got:
+            elif not got and not flows:
                 (unknown if _opaque(ps) else problems).append(f"build {s} does not keep the recovered payload")
+            elif flows:
+                # the payload goes somewhere, but not into a slot the rule can name (a computed key, an attribute of an
+                # object, a call): the store is not located - nothing is claimed about it
+                unknown.extend(flows)
             else:
-                unknown.append(f"build {s} stores the payload in {sorted(got)}")
+                unknown.append(f"build {s} stores the payload in {sorted(_slot_text(g) for g in got)}")
         if len(set(store.values())) != len(store):
-            problems.append(f"two selectors share a store: {store}")
+            problems.append(f"two selectors share a store: { {k: _slot_text(v) for k, v in store.items()} }")
         rets = [p for p in rt.post() if p.out == "return"]
         if not rets or _opaque(rets):
             unknown.append(f"the code after the loop could not be followed to a return ({_opaque(rets)})")
@@ -2234,21 +2381,27 @@ def r7(ctx, T, R, tt, rt, tval, rval):
                 unknown.append(f"recover returns {src(c)}")
                 continue
             cls = dotted(c.func).split(".")[-1]
-            kws = {k.arg: k.value for k in c.keywords if k.arg}
-            if c.args and not any(isinstance(a, ast.Starred) for a in c.args):
+            names = None
+            if c.args:
                 # positional construction: bind by the field order of the (NamedTuple) class definition
                 sy = ctx.rs.lookup_dotted(R.module.name, dotted(c.func)) if dotted(c.func).split(".")[0] not in rt.ex.locals else None
                 names = rt.ex._named_fields(sy.fq) if sy is not None and sy.kind == "class" else None
-                if names is not None and len(c.args) <= len(names):
-                    kws.update({n: a for n, a in zip(names, c.args)})
-                else:
-                    kws = {}
-            if not kws or any(isinstance(a, ast.Starred) for a in c.args) or any(k.arg is None for k in c.keywords):
+            given = {s: _ctor_arg(rt.ex, p, c, s, names) for s in _SELECTORS}
+            if any(isinstance(a, ast.Starred) for a in c.args) or (c.args and names is None) or all(v is None for v in given.values()):
                 unknown.append(f"recover returns {src(c)}: fields not passed by keyword")
                 continue
             for s in _SELECTORS:
-                if s in store and not _is(kws.get(s), store[s]):
-                    problems.append(f"{cls}.{s} is given {src(kws.get(s))} but `build {s}` stored the payload in {store[s]}")
+                if s not in store:
+                    continue
+                rd = _slot_read(given[s])
+                if rd == store[s]:
+                    continue
+                if rd is None and store[s][0] == "item" and given[s] is not None and _mentions(given[s], store[s][1].split(".")[0]):
+                    # the argument is computed from the container, but is not a constant-key read of it: not located
+                    # (a term that does not involve the container at all cannot be the stored payload: violated)
+                    unknown.append(f"{cls}.{s} is given {src(given[s])}; `build {s}` stored the payload in {_slot_text(store[s])}")
+                else:
+                    problems.append(f"{cls}.{s} is given {src(given[s])} but `build {s}` stored the payload in {_slot_text(store[s])}")
             rq = _is_request(p, http)
             kinds.setdefault(cls, []).append(rq)
             if cls == "ClientC2Data" and rq is not True:
@@ -2266,7 +2419,7 @@ def r7(ctx, T, R, tt, rt, tval, rval):
         elif unknown:
             ctx.undecided("R7", "AGREE", R, "build selectors", "; ".join(sorted(set(unknown))))
         else:
-            ctx.ob("R7", "AGREE", R, "build selectors", True, f"recover build stores into {store}; returned under the like-named fields; ClientC2Data only for requests, ServerC2Data otherwise")
+            ctx.ob("R7", "AGREE", R, "build selectors", True, f"recover build stores into { {k: _slot_text(v) for k, v in store.items()} }; returned under the like-named fields; ClientC2Data only for requests, ServerC2Data otherwise")
     r7_init(ctx)
 
 
